@@ -104,9 +104,7 @@ theorem immGood_run : ∀ (es : List ImmEv) (s s' : ImmState), ImmGood s → imm
 theorem newest_mem (fs : List File) (f : File) (h : newest fs = some f) : f ∈ fs ∧ f.part = false := by
   unfold newest at h
   have key : ∀ (l : List File) (acc : Option File), (∀ a, acc = some a → a ∈ fs ∧ a.part = false) → (∀ x ∈ l, x ∈ fs ∧ x.part = false) →
-      ∀ r, l.foldl (fun acc f => match acc with
-        | none => some f
-        | some g => if g.mtime < f.mtime then some f else some g) acc = some r → r ∈ fs ∧ r.part = false := by
+      ∀ r, l.foldl newer acc = some r → r ∈ fs ∧ r.part = false := by
     intro l
     induction l with
     | nil => intro acc hacc _ r hr; simp only [List.foldl_nil] at hr; exact hacc r hr
@@ -116,9 +114,9 @@ theorem newest_mem (fs : List File) (f : File) (h : newest fs = some f) : f ∈ 
       refine ih _ ?_ (fun y hy => hl y (List.mem_cons_of_mem _ hy)) r hr
       intro a ha
       cases acc with
-      | none => simp only [Option.some.injEq] at ha; subst ha; exact hl _ List.mem_cons_self
+      | none => simp only [newer, Option.some.injEq] at ha; subst ha; exact hl _ List.mem_cons_self
       | some g0 =>
-        simp only at ha
+        simp only [newer] at ha
         split at ha
         · simp only [Option.some.injEq] at ha; subst ha; exact hl _ List.mem_cons_self
         · simp only [Option.some.injEq] at ha; subst ha; exact hacc _ rfl
@@ -142,6 +140,107 @@ theorem imm_fetch_complete (es : List ImmEv) (s : ImmState) (h : immRun ImmState
       exact ⟨v, hv, g.known f hm v hv⟩
     · cases hf
   · cases hf
+
+/-! ### a completed Store is what the next Fetch returns -/
+
+/-- every file is older than the clock -/
+def ClockGood (s : ImmState) : Prop := ∀ f ∈ s.files, f.mtime < s.clock
+
+theorem clockGood_init : ClockGood ImmState.init := by intro f hf; simp [ImmState.init] at hf
+
+theorem clockGood_step {s s' : ImmState} {e : ImmEv} (h : immStep s e = some s') (g : ClockGood s) : ClockGood s' := by
+  cases e with
+  | beginStore id v =>
+    simp only [immStep] at h; split at h
+    · cases h
+    · simp at h; subst h; exact g
+  | writePart id v k =>
+    simp only [immStep] at h; split at h
+    · simp at h; subst h
+      intro f hf
+      simp only [List.mem_cons] at hf
+      rcases hf with rfl | hf
+      · simp
+      · have := g f (List.mem_of_mem_filter' hf); simp only; omega
+    · cases h
+  | finishPart id v =>
+    simp only [immStep] at h; split at h
+    · simp at h; subst h
+      intro f hf
+      simp only [List.mem_cons] at hf
+      rcases hf with rfl | hf
+      · simp
+      · have := g f (List.mem_of_mem_filter' hf); simp only; omega
+    · cases h
+  | failVerify id => simp only [immStep] at h; simp at h; subst h; exact fun f hf => g f (List.mem_of_mem_filter' hf)
+  | rename id =>
+    simp only [immStep] at h
+    split at h
+    · rename_i f hfind
+      split at h
+      · simp at h; subst h
+        intro x hx
+        simp only [List.mem_cons] at hx
+        rcases hx with rfl | hx
+        · exact g f (List.mem_of_find?_eq_some hfind)
+        · exact g x (List.mem_of_mem_filter' hx)
+      · cases h
+    · cases h
+  | clean =>
+    simp only [immStep] at h; split at h
+    · simp at h; subst h; exact fun f hf => g f (List.mem_of_mem_filter' hf)
+    · simp at h; subst h; exact g
+
+theorem clockGood_run : ∀ (es : List ImmEv) (s s' : ImmState), ClockGood s → immRun s es = some s' → ClockGood s' := by
+  intro es
+  induction es with
+  | nil => intro s s' g h; simp only [immRun, Option.some.injEq] at h; subst h; exact g
+  | cons e es ih =>
+    intro s s' g h
+    simp only [immRun] at h
+    split at h
+    · cases h
+    · rename_i s1 hs1; exact ih s1 s' (clockGood_step hs1 g) h
+
+/-- the fold that picks the newest file keeps a candidate that is newer than everything still to come -/
+theorem newest_fold_keeps (l : List File) (f0 : File) (h : ∀ x ∈ l, x.mtime < f0.mtime) :
+    l.foldl newer (some f0) = some f0 := by
+  induction l with
+  | nil => rfl
+  | cons x l ih =>
+    have hx := h x List.mem_cons_self
+    simp only [List.foldl_cons, newer]
+    have : ¬ f0.mtime < x.mtime := by omega
+    simp only [this, if_false]
+    exact ih (fun y hy => h y (List.mem_cons_of_mem _ hy))
+
+/-- STORE THEN FETCH (immutable): after any history, a Store that completes — upload finished, hashes
+    matched, `.part` dropped — makes its version the one the next Fetch returns -/
+theorem imm_store_then_fetch (es : List ImmEv) (s s1 s2 : ImmState) (id v : Nat)
+    (h : immRun ImmState.init es = some s) (h1 : immStep s (.finishPart id v) = some s1)
+    (h2 : immStep s1 (.rename id) = some s2) : immFetch s2 = some (.complete v) := by
+  have cg := clockGood_run es _ _ clockGood_init h
+  -- the state after finishPart
+  simp only [immStep] at h1
+  split at h1
+  · simp at h1; subst h1
+    simp only [immStep] at h2
+    simp [List.find?_cons] at h2
+    subst h2
+    unfold immFetch newest
+    generalize hL : List.filter (fun x => !decide (x.id = id)) s.files = L
+    have hLmem : ∀ x ∈ L, x ∈ s.files := by subst hL; intro x hx; exact (List.mem_filter.1 hx).1
+    -- the renamed file is first in the list, and newer than every other file
+    have hfil : List.filter (fun x => !x.part) (({ id := id, part := false, content := .complete v, mtime := s.clock } : File) :: L) =
+        { id := id, part := false, content := .complete v, mtime := s.clock } :: List.filter (fun x => !x.part) L := by
+      simp [List.filter_cons]
+    rw [hfil, List.foldl_cons]
+    simp only [newer]
+    rw [newest_fold_keeps]
+    · simp [unpacks]
+    · intro x hx
+      exact cg x (hLmem x (List.mem_filter.1 hx).1)
+  · cases h1
 
 /-! ### mutable -/
 
